@@ -35,7 +35,9 @@
 
 #include <deque>
 #include <map>
+#include <algorithm>
 #include <memory>
+#include <random>
 #include <set>
 
 using namespace iora::network;
@@ -176,7 +178,8 @@ struct World
   std::map<SessionId, long> nextByte;    // per session: id of the next byte the engine delivers
   std::map<std::string, ObserverId> obsIds;
   std::atomic<bool> destroyed{false};
-  std::atomic<bool> armReset{false}; // the next global close callback releases the (sole) owner from inside the callback
+  std::atomic<bool> armReset{false};
+  std::atomic<bool> gcbDone{false}; // the next global close callback releases the (sole) owner from inside the callback
   long long vms() { return vf::virtualAdvanceNs() / 1000000LL; }
   // all flags are created before any thread starts (prepareFlags): afterwards the map is only read
   std::atomic<bool> &flag(const std::string &f) { return flags.find(f)->second; }
@@ -406,6 +409,8 @@ StartResult ScriptEngine::start()
 }
 
 // ---- application side ------------------------------------------------------------------------------------------
+static void appOps(World *w, const ThreadProg &tp, std::vector<std::thread> *others);
+
 static void installCallbacks(World *w, Transport *t)
 {
   t->onAccept([w](SessionId s, const TransportAddress &) { w->tr.add(vf::Ev("GlobalAccept").i("s", (long long)s).b("as", w->stopReturned.load())); });
@@ -414,6 +419,11 @@ static void installCallbacks(World *w, Transport *t)
     [w](SessionId s, const TransportErrorInfo &)
     {
       w->tr.add(vf::Ev("GlobalClose").i("s", (long long)s).b("as", w->stopReturned.load()));
+      // the program thread "gcb" (if any) is executed INSIDE the first global close callback, on the I/O thread
+      bool first = false;
+      if (w->gcbDone.compare_exchange_strong(first, true))
+        for (auto &tp : w->prog)
+          if (tp.name == "gcb") appOps(w, tp, nullptr);
       bool e = true;
       if (w->armReset.compare_exchange_strong(e, false))
       {
@@ -556,7 +566,7 @@ static void appOps(World *w, const ThreadProg &tp, std::vector<std::thread> *oth
       {
         bool allQuiet = true;
         for (auto &p : w->prog)
-          if (p.name != "main" && p.name != "io" && vf::threadPhase(p.name) == 0) allQuiet = false;
+          if (p.name != "main" && p.name != "io" && p.name != "gcb" && vf::threadPhase(p.name) == 0) allQuiet = false;
         if (allQuiet) break;
         sched_yield();
       }
@@ -598,7 +608,7 @@ static std::string runOne(int cap, const std::vector<ThreadProg> &prog, const vf
               const ThreadProg *mainProg = nullptr;
               for (auto &tp : w->prog)
               {
-                if (tp.name == "io") continue;
+                if (tp.name == "io" || tp.name == "gcb") continue;
                 if (tp.name == "main")
                 {
                   mainProg = &tp;
@@ -714,6 +724,9 @@ static int cmdDfs(int argc, char **argv)
   {
     if ((int)wave.size() > maxExec - total)
     {
+      // truncation keeps a seeded random sample of the frontier (not its first entries), so that late preemption points
+      // are explored as often as early ones
+      std::shuffle(wave.begin(), wave.end(), std::mt19937(12345u + (unsigned)total));
       wave.resize(maxExec - total);
       truncated = true;
     }
